@@ -4,7 +4,7 @@
    `version`/`req`/`vleb`/`matches` are arbitrary (semver is outside); where an order is needed the
    hypotheses are exactly "vleb is total and transitive". *)
 From Coq Require Import String NArith List Sorting.Sorted.
-From VV Require Import Meta.ResolveModel Meta.ResolveProofs.
+From VV Require Import Meta.ResolveModel Meta.ResolveProofs Meta.ReachProofs.
 Import ListNotations.
 Local Open Scope list_scope.
 
@@ -82,6 +82,20 @@ Section C31.
     lockfile_update vleb matches w (table_of_locks vleb ls) md false = Ok (false, table_of_locks vleb ls).
   Proof. exact (update_stable_unmodified version req vleb matches). Qed.
 
+  (* update right after new (declarations and releases unchanged): gen_locks depends on the lock
+     table only through the resolve_version queries of REACHABLE declarations (`reach`: metadata
+     reachable from the root when requirements are resolved against the published releases), so
+     if the new table answers each of them like the published releases do (`agree`), update reports
+     modified = false and leaves the table unchanged.  `agree` is discharged query by query with
+     C31_resolve_locked_is_latest; what stays unproved is that Lockfile::new always locks the
+     latest matching release of every reachable declaration (BFS completeness under uuid de-dup). *)
+  Theorem C31_update_idempotent_after_new_partial :
+    forall (w : world version req) (md : metadata req) (t : table version),
+      lockfile_new vleb matches w md = Ok t ->
+      agree version req vleb matches w md t ->
+      lockfile_update vleb matches w t md false = Ok (false, t).
+  Proof. exact (update_after_new_unmodified version req vleb matches). Qed.
+
   Theorem C31_resolve_locked_is_latest : forall (w : world version req) (t : table version) u prj rq pth rels m,
     lookup2 (u, prj) (w_pubs w) = Some (PReleases pth rels) ->
     latest_matching vleb matches rels rq = Some m ->
@@ -126,6 +140,11 @@ Proof. exact (conj nleb_total nleb_trans). Qed.
 Example C31_suffix_example :
   fresh_name ["util"; "util_1"; "x"; "util_0"]%string "util"%string = Some "util_2"%string.
 Proof. exact suffix_example. Qed.
+Example C31_agree_met :
+  exists t, lockfile_new N.leb (nmatches ex_mt) ex_world ex_root = Ok t /\
+            agree N N N.leb (nmatches ex_mt) ex_world ex_root t /\
+            lockfile_update N.leb (nmatches ex_mt) ex_world t ex_root false = Ok (false, t).
+Proof. exact agree_example. Qed.
 Example C31_roundtrip_preconditions_met :
   let t1 := table_of_locks N.leb ex_locks1 in
   lockfile_update N.leb (nmatches ex_mt) ex_world ex_t0 ex_root false = Ok (true, t1) /\
@@ -141,6 +160,7 @@ Print Assumptions C31_lock_roundtrip.
 Print Assumptions C31_built_tables_wf_sorted.
 Print Assumptions C31_update_modified_spec.
 Print Assumptions C31_update_idempotent_partial.
+Print Assumptions C31_update_idempotent_after_new_partial.
 Print Assumptions C31_resolve_locked_is_latest.
 Print Assumptions C31_suffix_terminates_fresh.
 Print Assumptions C31_update_twice_refuted.
